@@ -1106,24 +1106,30 @@ class AsyncBackgroundBatcher(Generic[A_contra, R_co]):
         try:
             fut = self._retention_cache[key]
         except KeyError:
-            pass
+            fut = self._retention_cache[key] = self._loop.create_future()
+            # Forget the key once the result is in, not when the first
+            # caller stops waiting: it may be cancelled before that
+            fut.add_done_callback(partial(self._forget, key))
+            await self._queue.put((key, arg, fut))
+
+        # Shield so cancelling one caller can't cancel the shared future
+        return await aio.shield(fut)
+
+    def _forget(self, key: str, fut: 'aio.Future[R_co]') -> None:
+        """
+        Drop the finished future for the given key from the retention
+        cache, after :attr:`retention_timeout` if one is configured.
+        """
+        fut.cancelled() or fut.exception()  # Mark exception as retrieved
+        if self.retention_timeout > 0:
+            self._loop.call_later(
+                self.retention_timeout,
+                self._retention_cache.pop,
+                key,
+                None,
+            )
         else:
-            return await fut
-
-        fut = self._retention_cache[key] = self._loop.create_future()
-        await self._queue.put((key, arg, fut))
-
-        try:
-            return await fut
-        finally:
-            if self.retention_timeout > 0:
-                self._loop.call_later(
-                    self.retention_timeout,
-                    self._retention_cache.pop,
-                    key,
-                )
-            else:
-                del self._retention_cache[key]
+            self._retention_cache.pop(key, None)
 
     def _daemon_task(
         self,
